@@ -7,7 +7,7 @@
    [decode b] (MakeLabelVolume) is [assemble voxs] (C10_decode_wf), and re-labelling the sub-blocks
    commutes with assembling (C10_relabel_commutes): "voxel for voxel". *)
 From DV Require Import Base.Prelude Base.Int Base.BitPack Model.Block Model.BlockViews Model.BlockOps
-     Proofs.BitPack Proofs.Block Proofs.BlockOps Gen.Consts.
+     Proofs.BitPack Proofs.Block Proofs.BlockOps Proofs.BlockCount Gen.Consts.
 Local Open Scope N_scope.
 
 Theorem C10_decode_wf : forall b voxs,
@@ -56,6 +56,16 @@ Theorem C10_replace_label_fixed : forall b voxs target newLabel,
     size = count_eq (concat voxs) target.
 Proof. exact replace_label_wf. Qed.
 Print Assumptions C10_replace_label_fixed.
+
+(* the same against the decoded array: the reported size is the number of voxels of MakeLabelVolume's
+   output that carried the target label *)
+Theorem C10_replace_label_count : forall b voxs a target newLabel,
+  block_wf b voxs -> decode b = Ok a ->
+  exists b' size, replace_label true b target newLabel = Ok (b', size) /\
+    decode b' = Ok (map (fun l => if l =? target then newLabel else l) a) /\
+    size = count_eq a target.
+Proof. exact replace_label_count. Qed.
+Print Assumptions C10_replace_label_count.
 
 (* REFUTED for the code as found: after MergeLabels(2 -> 1), ReplaceLabel(1, 9) reports 3755 of the
    3926 voxels (aliased slots lost); and without any merge a multi-label sub-block lacking the
